@@ -71,3 +71,13 @@ def check_wellformed(E, label, x):
     elif nd == 3:
         ok = ok and (not x.is_ttm) and list(x.N) == [int(c.shape[1]) for c in cores]
     E.true(label, ok)
+    if nd == 4:
+        shp = [(int(c.shape[1]), int(c.shape[2])) for c in cores]
+    else:
+        shp = [int(c.shape[1]) for c in cores]
+    E.true(label + '_shape_attr', list(x.shape) == shp)
+    f = x.full()
+    if nd == 4:
+        E.true(label + '_full_shape', list(f.shape) == [int(c.shape[1]) for c in cores] + [int(c.shape[2]) for c in cores])
+    else:
+        E.true(label + '_full_shape', list(f.shape) == [int(c.shape[1]) for c in cores])
